@@ -535,6 +535,10 @@ func c01pCloseCases() []c01pCase {
 		{ClientWrites: []int{100000}, ClientNoRead: true, ClientClose: "after-writes"},
 		{ClientWrites: []int{1}, ServerWrites: []int{5, 70000}, ServerClose: "after-writes"},
 		{ClientWrites: []int{2000, 40000}, ServerWrites: []int{3000}, ClientClose: "after-writes", ServerClose: "after-writes"},
+		// round 4: the piggyback boundary as 0-RTT sees it — the 10-byte request rides in front of the
+		// first write: 10 + 1014 = 1024 bytes fit the open-session request, 10 + 1015 do not
+		{ClientWrites: []int{1014}, ServerWrites: []int{10}, ClientClose: "after-reads", ServerClose: "after-writes"},
+		{ClientWrites: []int{1015}, ServerWrites: []int{10}, ClientClose: "after-reads", ServerClose: "after-writes"},
 	}
 	for i, nw := range []bool{false, true} {
 		out = append(out, c01pCase{Kind: "c01-program", Name: fmt.Sprintf("close/api-nowait=%v", nw), Seed: int64(1220 + i), API: true, NoWait: nw,
